@@ -51,11 +51,14 @@ func (c11) Thresholds(tier string) map[string]int64 {
 		"restore-of-hand-built-snapshot-with-nil-counts":    60,
 		"other-runner-created-and-driven-meanwhile":         1500,
 		"refused-restore-changed-nothing":                   1000,
+		"long-loops":                                        150,
+		"long-loops-beyond-256-visits":                      60,
+		"restore-of-hand-built-snapshot-with-large-counts":  15,
 	}
 }
 
 func (c11) Rule() string {
-	return "case = one generated jump-graph-heavy program (2-6 nodes, self-loops and cycles bounded by a fuel variable, jumps by name and by expression from top level, option bodies and if bodies, every node tracking: never / always / another value (sometimes, Always, Never, empty ...: counted, only exactly 'never' is not) / unmarked at random) in which every node starts with a line printing visited_count(n) and visited(n) for every node and for a name that is no node; driven along enumerated choice paths; 6% of the jumps name a node that does not exist (the failed jump must not count), and now and then an earlier snapshot of the same run is restored into the running dialogue (counts must then be the snapshot's, and the next jump must count the restored node according to ITS tracking header); one restore in three uses a snapshot built by hand instead (any node, the variables of the last checkpoint, visit counts of the host's choosing or a nil map). Now and then another runner over the same script is created and driven while the run is in progress, and a RestoreAt naming an unknown node (with other counts) is attempted: both must change nothing; a snapshot handed to RestoreAt must come back unmodified (entries with count 0 included). Oracle: the printed values and Snapshot().VisitedNodes after every step equal the model's count of completed jump-exits; observed counts never decrease and change only in steps in which the model jumps. Non-trivial: some node is left >=2 times on the path and (a node is untracked or a jump leaves from a nested body). Distinct by hash of scripts+choices."
+	return "case = one generated jump-graph-heavy program (2-6 nodes, self-loops and cycles bounded by a fuel variable, jumps by name and by expression from top level, option bodies and if bodies, every node tracking: never / always / another value (sometimes, Always, Never, empty ...: counted, only exactly 'never' is not) / unmarked at random) in which every node starts with a line printing visited_count(n) and visited(n) for every node and for a name that is no node; driven along enumerated choice paths; 6% of the jumps name a node that does not exist (the failed jump must not count), and now and then an earlier snapshot of the same run is restored into the running dialogue (counts must then be the snapshot's, and the next jump must count the restored node according to ITS tracking header); one restore in three uses a snapshot built by hand instead (any node, the variables of the last checkpoint, visit counts of the host's choosing or a nil map). Now and then another runner over the same script is created and driven while the run is in progress, and a RestoreAt naming an unknown node (with other counts) is attempted: both must change nothing; a snapshot handed to RestoreAt must come back unmodified (entries with count 0 included); a quarter of the hand-built counts sit at the edges of the narrower integer types (127 ... 2^32, 2^53-2). One case in eight also runs a two-node loop of 70-1030 rounds whose every round shows the exact counts (lines and Snapshot). Oracle: the printed values and Snapshot().VisitedNodes after every step equal the model's count of completed jump-exits; observed counts never decrease and change only in steps in which the model jumps. Non-trivial: some node is left >=2 times on the path and (a node is untracked or a jump leaves from a nested body). Distinct by hash of scripts+choices."
 }
 
 func (c11) Assumptions() []string {
@@ -66,7 +69,62 @@ func (c11) Assumptions() []string {
 	}
 }
 
+// longLoop: two nodes that send the dialogue back and forth a few hundred times; every entry of Start shows the
+// counts, which must be exact far beyond the small numbers generated programs reach (a count kept in a narrow
+// integer, a table of small counts, a saturating counter).
+func (p c11) longLoop(c *core.Ctx) {
+	n := []int{130, 260, 300, 520, 70, 1030}[c.R.Intn(6)]
+	never := c.R.Chance(1, 4) // Ping is not tracked: its count stays 0 and the loop is driven by Start's count
+	hdr, cond := "", "visited_count(\"Ping\")"
+	if never {
+		hdr, cond = "tracking: never\n", "visited_count(\"Start\") - 1"
+	}
+	script := fmt.Sprintf("title: Start\n---\ns {visited_count(\"Start\")} {visited_count(\"Ping\")} {visited(\"Ping\")} {visited(\"Start\")}\n<<jump Ping>>\n===\ntitle: Ping\n%s---\n<<if %s < %d>>\n<<jump Start>>\n<<endif>>\ndone {visited_count(\"Start\")} {visited_count(\"Ping\")}\n===\n", hdr, cond, n)
+	rr, err, pan := mon.Create(nil, "", []string{script})
+	if err != nil || pan != "" {
+		c.Violate("the long visit loop failed to load", map[string]any{"readers": []string{script}, "error": fmt.Sprint(err), "panic": pan})
+		return
+	}
+	tf := func(b bool) string {
+		if b {
+			return "True"
+		}
+		return "False"
+	}
+	for k := 0; k <= n; k++ {
+		ping := k
+		if never {
+			ping = 0
+		}
+		want := fmt.Sprintf("s %d %d %s %s", k, ping, tf(ping > 0), tf(k > 0))
+		o := rr.Next(0)
+		snap := rr.DR.Snapshot()
+		if o.Kind != mon.KLine || o.Text != want || snap.VisitedNodes["Start"] != k || snap.VisitedNodes["Ping"] != ping {
+			c.Violate(fmt.Sprintf("visit counts in a loop of %d rounds: round %d should show %q with Snapshot().VisitedNodes Start=%d Ping=%d", n, k, want, k, ping), map[string]any{
+				"readers": []string{script}, "round": k, "observed": o.String(), "snapshot_counts": snap.VisitedNodes})
+			return
+		}
+		c.FeatureN("count-observations", 2)
+	}
+	want := fmt.Sprintf("done %d %d", n+1, map[bool]int{false: n, true: 0}[never])
+	if o := rr.Next(0); o.Kind != mon.KLine || o.Text != want {
+		c.Violate(fmt.Sprintf("visit counts after a loop of %d rounds: the last line should be %q", n, want), map[string]any{"readers": []string{script}, "observed": o.String()})
+		return
+	}
+	c.MaxOf("max-visit-count", n+1)
+	c.Feature("long-loops")
+	if n > 256 {
+		c.Feature("long-loops-beyond-256-visits")
+	}
+}
+
 func (p c11) Run(c *core.Ctx) {
+	if c.Idx%8 == 3 {
+		p.longLoop(c)
+		if c.Failed() {
+			return
+		}
+	}
 	cfg := gen.DefaultFlow()
 	cfg.StartNotFirst = true
 	cfg.DupTitles = true
@@ -189,6 +247,11 @@ func (p c11) Run(c *core.Ctx) {
 						for _, n := range prog.Nodes {
 							if c.R.Bool() {
 								k := c.R.Intn(4)
+								if c.R.Chance(1, 4) {
+									// a long save game: counts at the edges of the narrower integer types
+									k = []int{127, 128, 255, 256, 32767, 32768, 65535, 65536, 1 << 24, 1<<24 + 1, 1<<31 - 1, 1 << 31, 1<<32 - 1, 1 << 32, 1<<53 - 2}[c.R.Intn(15)]
+									c.Feature("restore-of-hand-built-snapshot-with-large-counts")
+								}
 								hand.VisitedNodes[n.Title] = k
 								check.Visits[n.Title] = k
 							}
